@@ -346,7 +346,7 @@ impl Property for C15 {
     }
     fn cases(&self, tier: Tier) -> u64 {
         match tier {
-            Tier::Quick => 60_000,
+            Tier::Quick => 300_000,
             Tier::Thorough => 3_000_000,
         }
     }
